@@ -164,9 +164,9 @@ def drains (c : Cfg) : List Ev → JState → Bool
      | .ok J' => drains c evs J'
      | .error _ => true)
 
-theorem DInv_run (c : Cfg) (evs : List Ev) {J J' : JState} (inv : JInv c J) (d : DInv c J)
+theorem DInv_run (c : Cfg) (henc : EncInj c) (evs : List Ev) {J J' : JState} (inv : JInv c J) (d : DInv c J)
     (hdr : drains c evs J = true) (h : jrun c evs J = .ok J')
-    (hside : SideOK c J'.q.added) (hkeys : KeysOK c J'.q.added) : DInv c J' := by
+    (hside : SideOK c J'.q.added) : DInv c J' := by
   induction evs generalizing J with
   | nil => simp only [jrun, Except.ok.injEq] at h; subst h; exact d
   | cons ev evs ih =>
@@ -176,7 +176,7 @@ theorem DInv_run (c : Cfg) (evs : List Ev) {J J' : JState} (inv : JInv c J) (d :
     · cases h
     · rename_i J1 hs
       simp only [drains, hs, Bool.and_eq_true] at hdr
-      have inv1 : JInv c J1 := JInv_step c ev inv hs (fun _ => SideOK_prefix hside hp) (KeysOK_prefix hkeys hp)
+      have inv1 : JInv c J1 := JInv_step c henc ev inv hs (fun _ => SideOK_prefix hside hp)
       refine ih inv1 (DInv_step c ev inv d hs ?_) hdr.2 h
       intro n vis cpl he
       subst he
